@@ -161,21 +161,62 @@ func genSanitizeConsts(repo string) (string, error) {
 	if wrap == nil || t2h == nil {
 		return "", fmt.Errorf("WrapURL / TextToHTML not found in helpers.go")
 	}
-	sp := callsNamed(wrap, "fmt", "Sprintf")
-	if len(sp) != 1 || len(sp[0].Args) != 3 {
+	// the anchor: either fmt.Sprintf("pre%smid%spost", a, b) or the concatenation pre + a + mid + b + post
+	var parts []string
+	var a1, a2 *ast.Ident
+	if sp := callsNamed(wrap, "fmt", "Sprintf"); len(sp) == 1 && len(sp[0].Args) == 3 {
+		format, ok := litString(sp[0].Args[0])
+		if !ok {
+			return "", fmt.Errorf("WrapURL: format is not a literal")
+		}
+		parts = strings.Split(format, "%s")
+		if len(parts) != 3 || strings.Contains(strings.Join(parts, ""), "%") {
+			return "", fmt.Errorf("WrapURL: format %q is not of the shape pre %%s mid %%s post", format)
+		}
+		a1, _ = sp[0].Args[1].(*ast.Ident)
+		a2, _ = sp[0].Args[2].(*ast.Ident)
+	} else if len(sp) == 0 {
+		var ret *ast.ReturnStmt
+		nret := 0
+		ast.Inspect(wrap, func(n ast.Node) bool {
+			if r, ok := n.(*ast.ReturnStmt); ok {
+				ret = r
+				nret++
+			}
+			return true
+		})
+		if nret != 1 || len(ret.Results) != 1 {
+			return "", fmt.Errorf("WrapURL: expected one fmt.Sprintf(format, a, b) or one return of a concatenation")
+		}
+		var ops []ast.Expr
+		var flat func(e ast.Expr) bool
+		flat = func(e ast.Expr) bool {
+			switch x := e.(type) {
+			case *ast.ParenExpr:
+				return flat(x.X)
+			case *ast.BinaryExpr:
+				return x.Op == token.ADD && flat(x.X) && flat(x.Y)
+			default:
+				ops = append(ops, e)
+				return true
+			}
+		}
+		if !flat(ret.Results[0]) || len(ops) != 5 {
+			return "", fmt.Errorf("WrapURL: the returned expression is not pre + a + mid + b + post")
+		}
+		for _, i := range []int{0, 2, 4} {
+			l, ok := litString(ops[i])
+			if !ok {
+				return "", fmt.Errorf("WrapURL: operand %d of the concatenation is not a literal", i)
+			}
+			parts = append(parts, l)
+		}
+		a1, _ = ops[1].(*ast.Ident)
+		a2, _ = ops[3].(*ast.Ident)
+	} else {
 		return "", fmt.Errorf("WrapURL: expected one fmt.Sprintf(format, a, b)")
 	}
-	format, ok := litString(sp[0].Args[0])
-	if !ok {
-		return "", fmt.Errorf("WrapURL: format is not a literal")
-	}
-	parts := strings.Split(format, "%s")
-	if len(parts) != 3 || strings.Contains(strings.Join(parts, ""), "%") {
-		return "", fmt.Errorf("WrapURL: format %q is not of the shape pre %%s mid %%s post", format)
-	}
-	a1, ok1 := sp[0].Args[1].(*ast.Ident)
-	a2, ok2 := sp[0].Args[2].(*ast.Ident)
-	if !ok1 || !ok2 || len(wrap.Type.Params.List) != 1 || len(wrap.Type.Params.List[0].Names) != 1 {
+	if a1 == nil || a2 == nil || len(wrap.Type.Params.List) != 1 || len(wrap.Type.Params.List[0].Names) != 1 {
 		return "", fmt.Errorf("WrapURL: unexpected argument shape")
 	}
 	param := wrap.Type.Params.List[0].Names[0].Name
@@ -200,6 +241,31 @@ func genSanitizeConsts(repo string) (string, error) {
 	fmt.Fprintf(&b, "Definition wrap_first_raw : bool := %v.\nDefinition wrap_second_raw : bool := %v.\n", firstRaw == 1, secondRaw == 1)
 	fmt.Fprintf(&b, "Definition wrap_amp_old : list N := %s.\nDefinition wrap_amp_new : list N := %s.\n\n", coqStr(ampOld), coqStr(ampNew))
 	nr := callsNamed(t2h, "strings", "NewReplacer")
+	if len(nr) == 0 {
+		// the replacer may be built once at package level: accept it when it is the only one of the file
+		// and TextToHTML calls <that variable>.Replace
+		for _, d := range h.Decls {
+			gd, ok := d.(*ast.GenDecl)
+			if !ok || gd.Tok != token.VAR {
+				continue
+			}
+			for _, sp := range gd.Specs {
+				vs, ok := sp.(*ast.ValueSpec)
+				if !ok || len(vs.Names) != 1 || len(vs.Values) != 1 {
+					continue
+				}
+				c, ok := vs.Values[0].(*ast.CallExpr)
+				if !ok {
+					continue
+				}
+				if se, ok := c.Fun.(*ast.SelectorExpr); ok && se.Sel.Name == "NewReplacer" {
+					if id, ok := se.X.(*ast.Ident); ok && id.Name == "strings" && len(callsNamed(t2h, vs.Names[0].Name, "Replace")) == 1 {
+						nr = append(nr, c)
+					}
+				}
+			}
+		}
+	}
 	if len(nr) != 1 || len(nr[0].Args)%2 != 0 {
 		return "", fmt.Errorf("TextToHTML: expected one strings.NewReplacer with an even number of arguments")
 	}
